@@ -15,13 +15,20 @@ MANIFEST = {
             'proved sufficient) and powmod (square-and-multiply) underneath: results reduced, in-place = binary, reflected = '
             'swapped, int mixing = converting first, ** = iterated product / inverse, shifts = mul/div by 2^n, only zero '
             'non-invertible, field_theory instance. The model is compared with the real classes on every run (all pairs for '
-            'p <= 31, random+boundary for 101, 257, 61- and 64-bit primes of both classes mod 4).',
+            'p <= 31, random+boundary for 101, 257, 61- and 64-bit primes of both classes mod 4). A final interleaved pass mixes '
+            'operations of different fields in one sequence (same shift count / inverse / power back to back across prime, '
+            'binary and extension fields) against the per-field oracle, so state shared between field classes is exercised.',
     'note': 'Coq model restricted to prime fields (scalar classes; array classes ignored). Extension fields GF(3^2..3^4), '
             'GF(5^2), GF(5^3), GF(7^2) and binary fields GF(2^d) d<=8,16 are covered by the implementation-level oracle '
             'only (independent polynomial reference arithmetic, field axioms on all triples for order <= 32, sampled above), '
             'no Coq model of gfpx here. powmod = CPython builtin pow is modelled (square-and-multiply), not verified; '
             'gmpy2 proper is not installed, the stubs of mpyc/gmpy.py are what runs. Error classes compared: '
-            'ZeroDivisionError / ValueError / TypeError.',
+            'ZeroDivisionError / ValueError / TypeError. Negative shift counts: an error is demanded for prime and binary '
+            'fields (as coded and modelled) but not for odd-characteristic extension fields, where the property does not state '
+            'the behaviour (observed: a << -1 returns a). Polynomial-on-the-left comparisons (poly == element) are ordinary '
+            'cases of the int/polynomial mixing oracle (former finding F-C20-3, fixed in /repo b077c68). Open finding F-C20-1: '
+            '<< in odd-characteristic extension fields multiplies by X^n, not 2^n. Class-level caches (_reciprocal2 lru_cache) '
+            'are not part of the Coq model (pure functions); they are covered by the interleaved cross-field oracle pass only.',
     'technique': 'Coq proof over executable prime-field model + exhaustive/random vm_compute correspondence + implementation oracle on all field kinds',
 }
 
@@ -467,13 +474,143 @@ def oracle_field(ctx, name, F, R, kind):
     return checks[0]
 
 
+def interleaved(ctx, finfields, rng, primes, ext_specs):
+    """Operations of DIFFERENT fields mixed in one sequence (class-level caches shared between field
+    classes are a realistic fault class): same shift count / inverse / power back to back across fields,
+    every step checked against the per-field oracle."""
+    import itertools
+    Fs = {p: finfields.GF(p) for p in primes}
+    trace = []
+    nchk = [0]
+
+    def step(p, op, a, x):
+        got = impl_run(ctx, Fs[p], p, op, a, x)
+        want = ref_run(p, op, a, x)
+        trace.append(['GF(%d)' % p, op, a, list(x), got])
+        del trace[:-8]
+        nchk[0] += 1
+        good = got in (-1, -2) if want == 'noinv' else got == want
+        if not good:
+            ctx.violation('interleaved-operator-wrong GF(%d) %s' % (p, op),
+                          {'p': p, 'op': op, 'a': a, 'x': list(x), 'got': got, 'want': want, 'preceding_steps': list(trace)})
+        ctx.case({'il': 'GF(%d)' % p, 'op': op, 'a': a, 'x': list(x), 'k': nchk[0]}, nontrivial=True, kind='interleaved prime fields')
+
+    def el(p):
+        return rng.choice([1, p - 1, rng.randrange(p), rng.randrange(1, p) if p > 1 else 0])
+
+    # A. the same shift count back to back across two / three different prime fields
+    counts = [0, 1, 2, 3, 7, 8, 31, 32, 63, 64, 65, 70]
+    pairs = list(itertools.permutations(primes, 2))
+    for n in counts:
+        for (p1, p2) in pairs:
+            x = ('int', n)
+            step(p1, 'ORsh', el(p1), x)
+            step(p2, 'ORsh', el(p2), x)
+            step(p1, 'OIRsh', el(p1), x)
+            step(p2, 'OIRsh', el(p2), x)
+            step(p1, 'OLsh', el(p1), x)
+            step(p2, 'ORsh', el(p2), x)
+            step(p1, 'ORsh', el(p1), x)
+    triples = [tuple(rng.sample(primes, 3)) for _ in range(ctx.n(80, 600))]
+    for (p1, p2, p3) in triples:
+        n = rng.choice(counts)
+        for p, op in ((p1, 'ORsh'), (p2, 'OIRsh'), (p3, 'ORsh'), (p2, 'OILsh'), (p1, 'OIRsh'), (p3, 'OIRsh')):
+            step(p, op, el(p), ('int', n))
+    # B. same operand back to back across fields for inverses / negative powers / division
+    for _ in range(ctx.n(300, 3000)):
+        p1, p2 = rng.sample(primes, 2)
+        v = rng.choice([1, 2, 3, rng.randrange(1, 1000)])
+        op = rng.choice(['ORecip', 'ODiv', 'OIDiv', 'ORDiv', 'OPow'])
+        for p in (p1, p2, p1):
+            if op == 'ORecip':
+                step(p, op, v % p, ('int', 0))
+            elif op == 'OPow':
+                step(p, op, v % p, ('int', rng.choice([-1, -2, -3])))
+            else:
+                step(p, op, el(p), ('int', v))
+    # C. a random walk over all fields and all operator methods
+    allops = INT_OPS + ['OPow'] + SHIFTS + UNARY
+    for _ in range(ctx.n(4000, 40000)):
+        p = rng.choice(primes)
+        op = rng.choice(allops)
+        if op in SHIFTS:
+            x = ('int', rng.choice(counts + [-1]))
+        elif op == 'OPow':
+            x = ('int', rng.choice([-3, -2, -1, 0, 1, 2, 5, p - 1, p, -p]))
+        elif op in UNARY:
+            x = ('int', 0)
+        else:
+            x = rng.choice([('int', rng.randrange(-2 * p - 1, 2 * p + 2)), ('el', rng.randrange(p))]) if op in EL_OPS \
+                else ('int', rng.randrange(-2 * p - 1, 2 * p + 2))
+        step(p, op, rng.randrange(p), x)
+
+    # D. extension / binary fields interleaved with each other and with prime fields (reference arithmetic oracle)
+    X = []
+    for (pp, dd) in ext_specs:
+        mod = finfields.find_irreducible(pp, dd)
+        X.append(('GF(%d^%d)' % (pp, dd), finfields.GF(mod), RefExt(pp, int(mod))))
+    for p in primes[:6]:
+        X.append(('GF(%d)' % p, Fs[p], RefPrime(p)))
+    for k in range(ctx.n(6000, 60000)):
+        name, F, R = X[k % len(X)] if k % 3 else rng.choice(X)
+        q = R.q
+        i, j = rng.randrange(q), rng.randrange(q)
+        n = rng.choice([0, 1, 2, 3, 8, 16])
+        kind = rng.choice(['add', 'mul', 'div', 'recip', 'pow-1', 'rsh', 'irsh', 'lsh'])
+        a, b = F(i), F(j)
+        good, got = True, None
+        try:
+            if kind == 'add':
+                got = int((a + b).value)
+                good = got == R.add(i, j)
+            elif kind == 'mul':
+                got = int((a * b).value)
+                good = got == R.mul(i, j)
+            elif kind == 'div':
+                r = catch(lambda: int((a / b).value))
+                got = str(r)
+                good = (r == ('err', 'ZeroDivisionError')) if j == 0 else (r[0] == 'ok' and R.mul(r[1], j) == i)
+            elif kind in ('recip', 'pow-1'):
+                r = catch((lambda: int(a.reciprocal().value)) if kind == 'recip' else (lambda: int((a ** -1).value)))
+                got = str(r)
+                good = (r[0] == 'err') if i == 0 else (r[0] == 'ok' and R.mul(r[1], i) == 1)
+            elif kind in ('rsh', 'irsh'):
+                c = R.conv(1 << n)
+                if kind == 'rsh':
+                    r = catch(lambda: int((a >> n).value))
+                else:
+                    def f_():
+                        y = F(i)
+                        y >>= n
+                        return int(y.value)
+                    r = catch(f_)
+                got = str(r)
+                good = (r == ('err', 'ZeroDivisionError')) if c == 0 else (r[0] == 'ok' and R.mul(r[1], c) == i)
+            else:
+                if isinstance(R, RefExt) and R.p > 2:
+                    continue        # open finding F-C20-1 (reported by the per-field pass)
+                got = int((a << n).value)
+                good = got == R.mul(i, R.conv(1 << n))
+        except Exception as ex:  # noqa
+            good, got = False, repr(ex)
+        trace.append([name, kind, i, j, n, got])
+        del trace[:-8]
+        nchk[0] += 1
+        if not good:
+            ctx.violation('interleaved-%s-wrong %s' % (kind, name), {'field': name, 'op': kind, 'a': i, 'b': j, 'n': n, 'got': got,
+                                                                       'preceding_steps': list(trace)})
+        ctx.case({'il': name, 'op': kind, 'a': i, 'b': j, 'n': n, 'k': k}, nontrivial=True, kind='interleaved all field kinds')
+    return nchk[0]
+
+
 def run(ctx):
     from mpyc import finfields, gmpy
     ok = ctx.build(['MPyC.FinField']) and ctx.check_props()
     rng = ctx.rng
     ctx.rule = ('model tie: case = (prime p, operator method, left element, right operand (element | int | foreign)); '
                 'all pairs for p <= 31 (x all ints in [-2p-1, 2p+1] for p <= 13, boundary ints around 0, +-p, +-2p above, all exponents in [-p-2, p+2], shift counts -2..11 and around 32, 64), '
-                'random+boundary for larger primes; oracle: case = (field, a, b) / (field, a, kind) on every field kind')
+                'random+boundary for larger primes; oracle: case = (field, a, b) / (field, a, kind) on every field kind; interleaved: case = one '
+                'step of a sequence alternating between different fields (same shift count / operand back to back)')
     ctx.explanation = ('Coq theorems about the executable prime-field model; the model is compared with the real operator '
                        'methods exactly; the property is also checked on the implementation against independent '
                        'integer/polynomial arithmetic for prime, binary and extension fields')
@@ -606,6 +743,10 @@ def run(ctx):
         nchk += oracle_field(ctx, name, F, R, kind)
     ctx.extra['oracle_checks_all_field_kinds'] = nchk
     ctx.log('oracle checks on %d fields: %d' % (len(fields), nchk))
+    nil = interleaved(ctx, finfields, rng, [2, 3, 5, 7, 13, 31, 101, 257, p61b, p64b],
+                      [(2, 1), (2, 4), (2, 8), (3, 2), (5, 2), (3, 3), (7, 2)])
+    ctx.extra['interleaved_cross_field_checks'] = nil
+    ctx.log('interleaved cross-field checks: %d' % nil)
     ctx.notes.append('extension/binary fields: property oracle on the implementation only (no Coq model of gfpx in this check)')
 
     if ctx.broken and not ctx.violations:
